@@ -3762,7 +3762,7 @@ xpath_bit_is_set(struct lyxp_set **args, uint32_t UNUSED(arg_count), struct lyxp
     LY_CHECK_RET(rc);
 
     set_fill_boolean(set, 0);
-    if (args[0]->used) {
+    if (args[0]->used && (args[0]->val.nodes[0].type == LYXP_NODE_ELEM)) {
         leaf = (struct lyd_node_term *)args[0]->val.nodes[0].node;
         if ((leaf->schema->nodetype & (LYS_LEAF | LYS_LEAFLIST)) && (leaf->value.realtype->basetype == LY_TYPE_BITS)) {
             LYD_VALUE_GET(&leaf->value, bits);
@@ -4093,7 +4093,7 @@ xpath_deref(struct lyxp_set **args, uint32_t UNUSED(arg_count), struct lyxp_set 
     }
 
     lyxp_set_free_content(set);
-    if (args[0]->used) {
+    if (args[0]->used && (args[0]->val.nodes[0].type == LYXP_NODE_ELEM)) {
         leaf = (struct lyd_node_term *)args[0]->val.nodes[0].node;
         sleaf = (struct lysc_node_leaf *)leaf->schema;
         if (sleaf->nodetype & (LYS_LEAF | LYS_LEAFLIST)) {
@@ -4336,7 +4336,7 @@ xpath_enum_value(struct lyxp_set **args, uint32_t UNUSED(arg_count), struct lyxp
     }
 
     set_fill_number(set, NAN);
-    if (args[0]->used) {
+    if (args[0]->used && (args[0]->val.nodes[0].type == LYXP_NODE_ELEM)) {
         leaf = (struct lyd_node_term *)args[0]->val.nodes[0].node;
         sleaf = (struct lysc_node_leaf *)leaf->schema;
         if ((sleaf->nodetype & (LYS_LEAF | LYS_LEAFLIST)) && (sleaf->type->basetype == LY_TYPE_ENUM)) {
